@@ -119,6 +119,16 @@ theorem search_eq_matching {s : Site} (h : SInv s) (e : Ent) (he : s.indexOn e =
   · simp [hre]
 
 
+/-- **no search fails**: every entry of the index belongs to a slot that has its document record -/
+theorem not_poisoned {s : Site} (h : SInv s) (t : Word) : poisoned s t = false := by
+  obtain ⟨_, _, h2, _, h4⟩ := h
+  unfold poisoned
+  apply List.any_eq_false.mpr
+  intro p hp
+  obtain ⟨r, hr, a, b, _⟩ := h2 p hp
+  have : s.docs.contains p.1 = true := by rw [← a]; exact List.contains_iff_mem.mpr (h4 r hr b)
+  simp [this]
+
 /-- **a search on a nested field returns exactly the children whose text matches** (the child is joined on
     its own slot), when the engine indexes `Doc` -/
 theorem nsearch_eq_nmatching {s : Site} (h : SInv s) (he : s.indexOn 0 = true) (t : Word) :
@@ -227,10 +237,10 @@ theorem writeInsert_inv {s : Site} (h : SInv s) (new : Row) (hn : ∀ r, r ∈ s
       simp only [hon, ↓reduceIte]
       exact List.mem_append.mpr (Or.inr List.mem_cons_self)
 
-theorem writeUpdate_inv {s : Site} (h : SInv s) (old new : Row) (ho : old ∈ s.rows)
+theorem writeUpdate_inv {s : Site} (h : SInv s) (ung : Bool) (old new : Row) (ho : old ∈ s.rows)
     (hn : new.n = old.n) (he : new.ent = old.ent) (prev : Option (List Word))
     (hp : prev = some old.text ∨ (prev = none ∧ old.text = [])) :
-    SInv (writeUpdate (s.indexOn old.ent) old new prev s) := by
+    SInv (writeUpdate ung (s.indexOn old.ent) old new prev s) := by
   obtain ⟨h0, h1, h2, h3, h4⟩ := h
   -- rows other than `old` have another number and another slot
   have hother : ∀ r, r ∈ s.rows → r.n ≠ old.n → r.slot ≠ old.slot := by
@@ -239,6 +249,55 @@ theorem writeUpdate_inv {s : Site} (h : SInv s) (old new : Row) (ho : old ∈ s.
   have hnum : ∀ r, r ∈ s.rows → r.n = old.n → r = old := by
     intro r hr hrn
     exact nodup_map_inj h0 hr ho hrn
+  -- what the optional 'delete' of the previous text leaves
+  have hdel : s.indexOn old.ent = true → deletesPrev ung (s.indexOn old.ent) old.slot s.docs = true := by
+    intro hi
+    unfold deletesPrev
+    cases ung with
+    | true => simpa using hi
+    | false => simpa using h4 old ho hi
+  have F1 : ∀ p, p ∈ (match prev with
+      | some q => if deletesPrev ung (s.indexOn old.ent) old.slot s.docs = true then idxDel old.slot q s.idx else s.idx
+      | none => s.idx) → p ∈ s.idx := by
+    intro p hp'
+    cases prev with
+    | none => exact hp'
+    | some q =>
+      simp only at hp'
+      split at hp'
+      · exact (mem_idxDel.mp hp').1
+      · exact hp'
+  have F2 : ∀ p, p ∈ s.idx → p.1 ≠ old.slot → p ∈ (match prev with
+      | some q => if deletesPrev ung (s.indexOn old.ent) old.slot s.docs = true then idxDel old.slot q s.idx else s.idx
+      | none => s.idx) := by
+    intro p hp' hne
+    cases prev with
+    | none => exact hp'
+    | some q =>
+      simp only
+      split
+      · exact mem_idxDel.mpr ⟨hp', fun ⟨hs, _⟩ => hne hs⟩
+      · exact hp'
+  have F3 : s.indexOn old.ent = true → ∀ p, p ∈ (match prev with
+      | some q => if deletesPrev ung (s.indexOn old.ent) old.slot s.docs = true then idxDel old.slot q s.idx else s.idx
+      | none => s.idx) → p.1 = old.slot → p.2 ∉ old.text := by
+    intro hi p hp' hs
+    rcases hp with hp | ⟨_, hp⟩
+    · subst hp
+      simp only [hdel hi, ↓reduceIte] at hp'
+      exact fun hm => (mem_idxDel.mp hp').2 ⟨hs, hm⟩
+    · rw [hp]; simp
+  have G1 : ∀ x, x ∈ s.docs → x ≠ old.slot → x ∈ (match prev with
+      | some _ => if deletesPrev ung (s.indexOn old.ent) old.slot s.docs = true then docDel old.slot s.docs else s.docs
+      | none => s.docs) := by
+    intro x hx hne
+    cases prev with
+    | none => exact hx
+    | some q =>
+      simp only
+      split
+      · exact mem_docDel.mpr ⟨hx, hne⟩
+      · exact hx
   unfold writeUpdate
   refine ⟨?_, ?_, ?_, ?_, ?_⟩
   · show ((eraseRow old.n s.rows ++ [{ new with slot := old.slot }]).map Row.n).Nodup
@@ -261,36 +320,23 @@ theorem writeUpdate_inv {s : Site} (h : SInv s) (old new : Row) (ho : old ∈ s.
     · rcases List.mem_singleton.mp a with rfl
       rcases List.mem_singleton.mp b with rfl
       rfl
-  · intro p hp
+  · intro p hp'
+    dsimp only at hp'
     by_cases hi : s.indexOn old.ent = true
-    · simp only [hi, ↓reduceIte] at hp
-      rcases mem_idxAdd.mp hp with hp | ⟨hp1, hp2⟩
+    · rw [if_pos hi] at hp'
+      rcases mem_idxAdd.mp hp' with hp' | ⟨hp1, hp2⟩
       · -- an entry that survived the deletion of the previous text
-        have hin : p ∈ s.idx ∧ (p.1 = old.slot → p.2 ∉ old.text) := by
-          rcases hp with hp
-          cases prev with
-          | none =>
-            rcases hp with _
-            rcases ‹_ ∨ _› with h' | ⟨_, h'⟩
-            · cases h'
-            · exact ⟨hp, fun _ => by rw [h']; simp⟩
-          | some pt =>
-            rcases ‹_ ∨ _› with h' | ⟨h', _⟩
-            · cases h'
-              have := mem_idxDel.mp hp
-              exact ⟨this.1, fun hs hm => this.2 ⟨hs, hm⟩⟩
-            · cases h'
-        obtain ⟨r, hr, a, b, c⟩ := h2 p hin.1
+        obtain ⟨r, hr, a, b, c⟩ := h2 p (F1 p hp')
         have hne : r.n ≠ old.n := by
           intro hrn
           have := hnum r hr hrn
           subst this
-          exact hin.2 a.symm c
+          exact F3 hi p hp' a.symm c
         exact ⟨r, List.mem_append.mpr (Or.inl (mem_eraseRow.mpr ⟨hr, hne⟩)), a, b, c⟩
       · refine ⟨_, List.mem_append.mpr (Or.inr List.mem_cons_self), hp1.symm, ?_, hp2⟩
         simp only [he]; exact hi
-    · simp only [hi] at hp
-      obtain ⟨r, hr, a, b, c⟩ := h2 p hp
+    · rw [if_neg hi] at hp'
+      obtain ⟨r, hr, a, b, c⟩ := h2 p (F1 p hp')
       have hne : r.n ≠ old.n := by
         intro hrn
         have := hnum r hr hrn
@@ -298,16 +344,12 @@ theorem writeUpdate_inv {s : Site} (h : SInv s) (old new : Row) (ho : old ∈ s.
         exact hi b
       exact ⟨r, List.mem_append.mpr (Or.inl (mem_eraseRow.mpr ⟨hr, hne⟩)), a, b, c⟩
   · intro r hr hon w hw
+    dsimp only
     rcases List.mem_append.mp hr with a | a
     · obtain ⟨hr', hne⟩ := mem_eraseRow.mp a
-      have hin := h3 r hr' hon w hw
-      have hsl := hother r hr' hne
+      have hin := F2 _ (h3 r hr' hon w hw) (hother r hr' hne)
       split
-      · apply mem_idxAdd.mpr
-        left
-        cases prev with
-        | none => exact hin
-        | some pt => exact mem_idxDel.mpr ⟨hin, fun ⟨hs, _⟩ => hsl hs⟩
+      · exact mem_idxAdd.mpr (Or.inl hin)
       · exact hin
     · rcases List.mem_singleton.mp a with rfl
       simp only at hon hw ⊢
@@ -315,17 +357,12 @@ theorem writeUpdate_inv {s : Site} (h : SInv s) (old new : Row) (ho : old ∈ s.
       simp only [hon, ↓reduceIte]
       exact mem_idxAdd.mpr (Or.inr ⟨rfl, hw⟩)
   · intro r hr hon
+    dsimp only
     rcases List.mem_append.mp hr with a | a
     · obtain ⟨hr', hne⟩ := mem_eraseRow.mp a
-      have hin := h4 r hr' hon
-      have hsl := hother r hr' hne
-      show r.slot ∈ (if s.indexOn old.ent = true then _ else s.docs)
+      have hin := G1 _ (h4 r hr' hon) (hother r hr' hne)
       split
-      · apply List.mem_append.mpr
-        left
-        cases prev with
-        | none => exact hin
-        | some pt => exact mem_docDel.mpr ⟨hin, hsl⟩
+      · exact List.mem_append.mpr (Or.inl hin)
       · exact hin
     · rcases List.mem_singleton.mp a with rfl
       simp only at hon ⊢
@@ -574,7 +611,7 @@ theorem ingestRow_inv (d : Defects) (hd : d.ingestUnindexed = false) {dst : Site
   · rename_i old hf
     obtain ⟨ho, hon⟩ := findRow_some hf
     have he : r.ent = old.ent := (hk old ho hon).symm
-    have := writeUpdate_inv h old r ho hon.symm he (some old.text) (Or.inl rfl)
+    have := writeUpdate_inv h d.deleteUnguarded old r ho hon.symm he (some old.text) (Or.inl rfl)
     rw [he]
     refine ⟨this, rfl, ?_⟩
     intro x hx
